@@ -73,6 +73,7 @@ type vC03Sc struct {
 	FailFrac      float64
 	LiarFrac      float64
 	AllFail       bool
+	PutSlow       bool     // every peer answers lookups but takes 2-9.5 s to accept a store RPC
 	Ops           []string // operations started concurrently (ops / cancelenum: exactly one)
 	Optim         bool     // EnableOptimisticProvide
 	Pool          int      // OptimisticProvideJobsPoolSize (-1: default)
@@ -526,7 +527,7 @@ func vC03RunOnce(t *testing.T, c *vh.Case, sc *vC03Sc, cm vC03Cancel) *vC03Out {
 	var phase atomic.Int32
 	kinds := map[peer.ID]string{}
 	kindCount := map[string]int{}
-	failKinds := []string{"dead", "dialslow", "reqerr", "silent", "late", "flaky", "putfail", "half"}
+	failKinds := []string{"dead", "dialslow", "dialstall", "reqerr", "silent", "late", "flaky", "putfail", "half"}
 	if sc.AllFail {
 		failKinds = []string{"dead", "dialslow", "reqerr", "silent", "dead", "reqerr"}
 	}
@@ -540,6 +541,9 @@ func vC03RunOnce(t *testing.T, c *vh.Case, sc *vC03Sc, cm vC03Cancel) *vC03Out {
 		if sc.AllFail || r.Float64() < sc.FailFrac {
 			kind = failKinds[r.Intn(len(failKinds))]
 		}
+		if sc.PutSlow {
+			kind = "putlate"
+		}
 		liar := ""
 		if kind == "ok" && r.Float64() < sc.LiarFrac {
 			liar = liarKinds[r.Intn(len(liarKinds))]
@@ -552,6 +556,11 @@ func vC03RunOnce(t *testing.T, c *vh.Case, sc *vC03Sc, cm vC03Cancel) *vC03Out {
 		idx, kk, lk, sid := i, kind, liar, strangers
 		strangers += 3
 		salt := r.Intn(1000)
+		// successful dials take time too for half of the peers (a lookup can end while a dial is pending)
+		var dialLat time.Duration
+		if r.Intn(2) == 0 {
+			dialLat = time.Duration(1+r.Intn(sc.MaxDelay)) * time.Millisecond
+		}
 		sp.Script = func(cnt int, req *pb.Message) vsim.Reply {
 			if phase.Load() == 0 {
 				if req == nil {
@@ -565,8 +574,10 @@ func vC03RunOnce(t *testing.T, c *vh.Case, sc *vC03Sc, cm vC03Cancel) *vC03Out {
 					return vsim.Reply{DialFail: true}
 				case "dialslow":
 					return vsim.Reply{DialFail: true, Delay: base}
+				case "dialstall": // connects in the end, after a long time
+					return vsim.Reply{Delay: late}
 				}
-				return vsim.Reply{}
+				return vsim.Reply{Delay: dialLat}
 			}
 			rep := vsim.Reply{Delay: base + time.Duration((cnt*37+idx)%7)*time.Millisecond}
 			store := req.GetType() == pb.Message_PUT_VALUE || req.GetType() == pb.Message_ADD_PROVIDER
@@ -594,6 +605,10 @@ func vC03RunOnce(t *testing.T, c *vh.Case, sc *vC03Sc, cm vC03Cancel) *vC03Out {
 			case "putfail":
 				if store {
 					fail(1 + (idx+salt)%3)
+				}
+			case "putlate":
+				if store {
+					fail(3)
 				}
 			case "half":
 				if cnt >= 1 {
@@ -1065,6 +1080,7 @@ func vC03Describe(c *vh.Case, sc *vC03Sc, cm vC03Cancel) {
 	c.Set("fail_frac", sc.FailFrac)
 	c.Set("liar_frac", sc.LiarFrac)
 	c.Set("all_fail", sc.AllFail)
+	c.Set("slow_store_rpcs", sc.PutSlow)
 	c.Set("cancel_mode", cm.Mode)
 	c.Set("cancel_at", cm.At.String())
 	c.Set("events", sc.Events)
@@ -1084,7 +1100,7 @@ func vC03Describe(c *vh.Case, sc *vC03Sc, cm vC03Cancel) {
 
 func TestVerif_C03_ops(t *testing.T) {
 	vh.Run(t, vh.Spec{Prop: "C03", Unit: "ops", Quick: 1600, Thorough: 80000, CostMs: 18,
-		Rule: "PRNG case = simulated network (N 0-150; K in {1,2,3,5,8,20}, alpha in {1,2,3,10}, beta in {1,2,3,K}; knowledge full/kbucket/sparse; 0-90% (or all) peers failing by dial error, slow dial error, request error, silence (10 s simulated read timeout), late answers (2-9.5 s), per-request flakiness, failing only the store RPC, answering once then silent; liars adding self / duplicates / strangers / 200 entries / themselves / mis-keyed records; value and provider records on some peers and locally; optional earlier lookups that filled the table; optional query/lookup event consumers; slow channel consumer) x one of GetClosestPeers, FindPeer, GetValue, SearchValue, FindProviders, FindProvidersAsync, PutValue, Provide(classic) x cancel mode {none, cancelled before the call, expired deadline, cancel at a log-uniform virtual instant 1 ms-60 s, ctx deadline 5 ms-61 s}; oracle in virtual time over the simulated wire/dial log + goroutine census; non-trivial = >= 1 RPC and (a contacted peer failed / was silent / late, or the cancellation hit the operation); distinct by (operation, cancel mode, shape, RPC count, outcome and return instant)",
+		Rule: "PRNG case = simulated network (N 0-150; K in {1,2,3,5,8,20}, alpha in {1,2,3,10}, beta in {1,2,3,K}; knowledge full/kbucket/sparse; 0-90% (or all) peers failing by dial error, slow dial error, dials that take 2-9.5 s, request error, silence (10 s simulated read timeout), late answers (2-9.5 s), per-request flakiness, failing only the store RPC, answering once then silent; liars adding self / duplicates / strangers / 200 entries / themselves / mis-keyed records; value and provider records on some peers and locally; optional earlier lookups that filled the table; optional query/lookup event consumers; slow channel consumer) x one of GetClosestPeers, FindPeer, GetValue, SearchValue, FindProviders, FindProvidersAsync, PutValue, Provide(classic) x cancel mode {none, cancelled before the call, expired deadline, cancel at a log-uniform virtual instant 1 ms-60 s, ctx deadline 5 ms-61 s}; oracle in virtual time over the simulated wire/dial log + goroutine census; non-trivial = >= 1 RPC and (a contacted peer failed / was silent / late, or the cancellation hit the operation); distinct by (operation, cancel mode, shape, RPC count, outcome and return instant)",
 		Clauses: []string{"return-bounded", "cancel-prompt", "chan-closed", "chan-call-prompt", "quiet-after-return", "no-leak", "closed-empty"}},
 		func(c *vh.Case) {
 			sc := vC03GenSc(c.R, 150)
@@ -1100,12 +1116,15 @@ func TestVerif_C03_ops(t *testing.T) {
 }
 
 func TestVerif_C03_cancelenum(t *testing.T) {
-	vh.Run(t, vh.Spec{Prop: "C03", Unit: "cancelenum", Quick: 160, Thorough: 3000, CostMs: 130,
-		Rule: "small PRNG scenarios (N 0-40, otherwise as unit ops, one operation each); the scenario is first run un-cancelled recording the virtual instants of all wire/dial log entries up to the return (boundary events, incl. the call and the return themselves), then re-run from the same seed with cancel() at a boundary instant -1 ns / +0 / +1 ns: quick 8 PRNG-chosen boundaries per case, thorough all of them (at most 100); same oracle as ops on every run; non-trivial = >= 3 distinct boundaries and at least one cancellation hit the operation with an RPC in flight; distinct by (operation, shape, number of boundaries, outcomes)",
+	vh.Run(t, vh.Spec{Prop: "C03", Unit: "cancelenum", Quick: 160, Thorough: 4000, CostMs: 130,
+		Rule: "small PRNG scenarios (N 3-40, otherwise as unit ops, one operation each); the scenario is first run un-cancelled recording the distinct virtual instants of all wire/dial log entries up to the return (boundary events, incl. the call and the return themselves), then re-run from the same seed with cancel() at (boundary instant, offset in {-1 ns, 0, +1 ns}): quick 8 PRNG-chosen pairs per case, thorough all pairs (at most 300); same oracle as ops on every run; non-trivial = >= 3 distinct boundaries and at least one cancellation hit the operation with an RPC in flight; distinct by (operation, shape, number of boundaries, outcomes)",
 		Clauses: []string{"return-bounded", "cancel-prompt", "chan-closed", "quiet-after-return", "no-leak", "closed-empty"}},
 		func(c *vh.Case) {
 			sc := vC03GenSc(c.R, 40)
 			sc.Warm, sc.Disconnect = "", 0
+			if sc.Cfg.N < 3 {
+				sc.Cfg.N = 3 + c.R.Intn(38)
+			}
 			meta := rand.New(rand.NewSource(c.R.Int63()))
 			vC03Describe(c, sc, vC03Cancel{Mode: "enumerated"})
 			var bounds []time.Duration
@@ -1117,24 +1136,28 @@ func TestVerif_C03_cancelenum(t *testing.T) {
 			if c.Failed() {
 				return
 			}
-			var pick []int
+			type cand struct {
+				i int
+				d time.Duration
+			}
+			var pick []cand
+			for i := range bounds {
+				for d := -1; d <= 1; d++ {
+					pick = append(pick, cand{i, time.Duration(d)})
+				}
+			}
+			meta.Shuffle(len(pick), func(i, j int) { pick[i], pick[j] = pick[j], pick[i] })
+			limit := 8
 			if c.Tier == "thorough" {
-				for i := range bounds {
-					pick = append(pick, i)
-				}
-				if len(pick) > 100 {
-					meta.Shuffle(len(pick), func(i, j int) { pick[i], pick[j] = pick[j], pick[i] })
-					pick = pick[:100]
-				}
-			} else {
-				for i := 0; i < 8; i++ {
-					pick = append(pick, meta.Intn(len(bounds)))
-				}
+				limit = 300
+			}
+			if len(pick) > limit {
+				pick = pick[:limit]
 			}
 			c.Set("boundaries", len(bounds))
 			hits, hot := 0, 0
-			for _, i := range pick {
-				at := bounds[i] + time.Duration(meta.Intn(3)-1)
+			for _, p := range pick {
+				at := bounds[p.i] + p.d
 				var out *vC03Out
 				c.Bubble(t, vC03Budget, "op-hang", func(t *testing.T) {
 					out = vC03RunOnce(t, c, sc, vC03Cancel{Mode: "at", At: at})
@@ -1160,7 +1183,7 @@ func TestVerif_C03_cancelenum(t *testing.T) {
 
 func TestVerif_C03_optprov(t *testing.T) {
 	vh.Run(t, vh.Spec{Prop: "C03", Unit: "optprov", Quick: 128, Thorough: 6000, CostMs: 30,
-		Rule: "Provide with EnableOptimisticProvide on PRNG networks (N 1-150, K in {1,2,3,5,8,20}, jobs pool 0/1/3/default) whose network-size estimator was warmed up by >= 5 completed GetClosestPeers (or, when N < K, by 6 synthetic Track calls claiming a network of K..2000 peers); afterwards the peers start failing as in unit ops; 1-3 concurrent provides; cancel modes as ops plus cancel at a boundary instant of the un-cancelled run; forced classes by case index: every 16th case all peers fail, every 16th is cancelled before the call, every 16th uses K <= 2; non-trivial = estimator ready and >= 1 ADD_PROVIDER message or a failing peer contacted; distinct by (shape, cancel mode, RPC count, outcomes)",
+		Rule: "Provide with EnableOptimisticProvide on PRNG networks (N 1-150, K in {1,2,3,5,8,20}, jobs pool 0/1/3/default) whose network-size estimator was warmed up by >= 5 completed GetClosestPeers (or, when N < K, by 6 synthetic Track calls claiming a network of K..2000 peers); afterwards the peers start failing as in unit ops; 1-3 concurrent provides; cancel modes as ops plus cancel at a boundary instant of the un-cancelled run; forced classes by case index modulo 32: all peers fail (1 of 32), K <= 2 (2), context cancelled / expired before the call while every peer takes 2-9.5 s to accept an ADD_PROVIDER (4); non-trivial = estimator ready and >= 1 ADD_PROVIDER message or a failing peer contacted; distinct by (shape, cancel mode, RPC count, outcomes)",
 		Clauses: []string{"return-bounded", "cancel-prompt", "quiet-after-return", "no-leak", "closed-empty"}},
 		func(c *vh.Case) {
 			r := c.R
@@ -1176,16 +1199,23 @@ func TestVerif_C03_optprov(t *testing.T) {
 			}
 			sc.Disconnect = []float64{0, 0.5, 1, 1}[r.Intn(4)]
 			cm := vC03GenCancel(r)
+			for cm.Mode == "pre" || cm.Mode == "expired" { // covered by the forced classes below (each hang costs a process)
+				cm = vC03GenCancel(r)
+			}
+			sc.AllFail = false
 			boundary := r.Intn(5) == 0
-			switch c.Idx % 16 {
+			switch c.Idx % 32 {
 			case 3:
 				sc.AllFail, cm, boundary = true, vC03Cancel{Mode: "none"}, false
 				sc.Ops = sc.Ops[:1]
-			case 7:
-				cm, boundary = vC03Cancel{Mode: "pre"}, false
-			case 11:
+			case 11, 27:
 				sc.Cfg.K = 1 + r.Intn(2)
 				sc.Cfg.B = 1
+			case 7, 13, 19, 29:
+				// context already over at the call while every ADD_PROVIDER would take seconds
+				sc.PutSlow, sc.AllFail, boundary = true, false, false
+				sc.Ops = sc.Ops[:1]
+				cm = vC03Cancel{Mode: []string{"pre", "pre", "expired"}[r.Intn(3)]}
 			}
 			sc.Warm, sc.WarmM = "real", 0
 			if sc.Cfg.N < sc.Cfg.K || r.Intn(3) == 0 {
